@@ -122,6 +122,9 @@ pub struct Inner {
     pub timer_sleeping: bool,
     /// workers chosen by `place` for a coroutine that has not been resumed there yet (vid 0 = the note is still to come)
     pub placed: Vec<(usize, usize)>,
+    /// settle has waited long enough for a queued coroutine to be picked up (stolen) by some worker: from now on one
+    /// that sits behind a worker occupied by an actor at a point counts as settled
+    pub lenient_queued: bool,
     pub add_gen: u64,
     pub read_add_gen: u64,
     pub done_add_gen: u64,
@@ -224,6 +227,7 @@ impl Ctrl {
                 timer_token: false,
                 timer_sleeping: false,
                 placed: vec![],
+                lenient_queued: false,
                 add_gen: 0,
                 read_add_gen: 0,
                 done_add_gen: 0,
@@ -445,7 +449,7 @@ impl Ctrl {
                         Some(CoSt::Switching(_)) => g.actors.iter().any(|x| x.kernel_of == Some(i)),
                         // queued on a worker whose thread is occupied by an actor that is stopped at a point (it got there
                         // after the placement): it runs once that actor has been released
-                        Some(CoSt::Queued) => g.placed.iter().any(|p| p.0 == a.vid && g.actors.iter().enumerate().any(|(j, x)| j != i && x.st == ASt::AtPoint && x.worker == p.1)),
+                        Some(CoSt::Queued) => g.lenient_queued && g.placed.iter().any(|p| p.0 == a.vid && g.actors.iter().enumerate().any(|(j, x)| j != i && x.st == ASt::AtPoint && x.worker == p.1)),
                         _ => false,
                     }
                 } else {
@@ -464,7 +468,9 @@ impl Ctrl {
                 return Ok(Settled::Quiet);
             }
             let n = g.actors.len();
+            g.lenient_queued = start.elapsed() > Duration::from_millis(150);
             let mut all = (0..n).all(|i| Self::settled_one(&g, i));
+            g.lenient_queued = false;
             // a timer that was added (possibly due at once: a zero time-out) and that the timer thread has not
             // looked at yet: it may fire without the clock moving
             if all && g.vclock.is_some() {
